@@ -50,6 +50,10 @@ func (vos) Readline(opts interp.ReadlineOpts) (string, error) { return "", io.EO
 
 var theInterp *interp.Interp
 
+// generous: a normal batch takes seconds; the limit only has to end a navigation loop. (On a machine
+// with a load average of 200 a 60 s limit was hit by ordinary batches.)
+const evalTimeout = 15 * time.Minute
+
 func getInterp() *interp.Interp {
 	if theInterp == nil {
 		i, err := interp.New(vos{}, interp.DefaultRegistry)
@@ -75,7 +79,7 @@ func evalAll(c any, prog string) (vs []any, err error) {
 		}
 	}()
 	// a navigation loop (a field that shadows `_parent`) must end as an error, not as an OOM kill
-	ctx, cancel := context.WithTimeout(context.Background(), 60*time.Second)
+	ctx, cancel := context.WithTimeout(context.Background(), evalTimeout)
 	defer cancel()
 	it, err := getInterp().Eval(ctx, c, prog, interp.EvalOpts{})
 	if err != nil {
